@@ -81,7 +81,24 @@ def main():
                     again_ok = r2.get("zz_second_call") == 1 and {k: x for k, x in r2.items() if k != "zz_second_call"} == r
                 finally:
                     del v["zz_second_call"]
+            # the result is a NEW dictionary (and so is every sub-dictionary merged from two): it is the caller's to
+            # write into, and a later call returns another one that knows nothing of what the caller wrote
+            own_ok = True
+            if isinstance(r, dict):
+                clean = copy.deepcopy(r)
+
+                def scribble(res, a, b):
+                    for k in list(res):
+                        if isinstance(a, dict) and isinstance(b, dict) and k in a and k in b \
+                                and isinstance(a[k], dict) and isinstance(b[k], dict) and isinstance(res[k], dict):
+                            scribble(res[k], a[k], b[k])
+                    res["zz_written_by_the_caller"] = 1
+                scribble(r, o if isinstance(o, dict) else {}, v if isinstance(v, dict) else {})
+                r3 = merge_config(o, v)
+                own_ok = r3 is not r and r3 == clean and o == o0 and v == v0
+                r = clean
             rec = {"result": r, "o_after": o, "v_after": v, "passed_through": same, "second_call_ok": again_ok,
+                   "result_is_the_callers": own_ok,
                    "fresh": isinstance(r, dict) and r is not o and r is not v,
                    "o_unchanged": o == o0, "v_unchanged": v == v0}
             json.dumps(rec)
